@@ -92,6 +92,10 @@ fn gen(seed: u64, idx: u64, t: Tier) -> J {
 		}
 	};
 	let max_size = if big { r.log_range(8 * 1024, 256 * 1024) } else { r.log_range(8, 2048) };
+	// One stream in five is long enough for the memory-growth comparison (its first quarter
+	// must exceed every look-ahead constant, see eval).
+	let n = if !big && r.chance(1, 5) { n.max(r.log_range(800, 4000)) } else { n };
+	let max_size = if !big && n >= 800 { max_size.max(256) } else { max_size };
 	let mut docs = vec![];
 	let cfg = GenCfg { max_depth: 2, max_len: 3, bytes: false, nonstring_keys: false, ..GenCfg::common() };
 	// A pool of distinct documents, reused cyclically for very long streams.
@@ -399,7 +403,11 @@ fn eval(case: &J) -> Eval {
 	if peak > abs_bound {
 		ev.violate(format!("memory/absolute/{tag}"), format!("peak live heap attributable to xt is {peak} bytes for a {}-byte stream of {n} documents (largest document {max_doc} bytes; bound {abs_bound})", bytes.len()));
 	}
-	if n >= 40 {
+	// (Only for streams whose first quarter is already longer than every look-ahead constant -
+	// the 8 KiB BufReader, libyaml's 16 KiB reads: a shorter prefix may be read to its end
+	// during detection and handed on as a slice, a different regime with different constants,
+	// and the step between the regimes is not growth.)
+	if n >= 40 && docs[n / 4 - 1].1 >= 32 * 1024 {
 		// The same stream cut after N/4 and after N/2 documents. Retained memory that grows
 		// with the stream shows in BOTH increments, roughly in proportion to the bytes
 		// added; a one-time jump (e.g. detection reading a short stream to EOF and
